@@ -51,6 +51,13 @@ Definition iw_mod (x : iw) (o : operand) : result iw :=
 Definition iw_and (x : iw) (o : operand) := mk (Z.land (value x) (oval o)) None.
 Definition iw_or (x : iw) (o : operand) := mk (Z.lor (value x) (oval o)) None.
 Definition iw_xor (x : iw) (o : operand) := mk (Z.lxor (value x) (oval o)) None.
+(* comparisons (__eq__ __ne__ __lt__ __gt__ __le__ __ge__): on the held values only, widths play no part *)
+Definition iw_cmp (code : Z) (x : iw) (o : operand) : bool :=
+  match code with
+  | 0 => value x =? oval o | 1 => negb (value x =? oval o)
+  | 2 => value x <? oval o | 3 => oval o <? value x
+  | 4 => value x <=? oval o | _ => oval o <=? value x
+  end.
 Definition iw_invert (x : iw) := mk (Z.lnot (value x)) None.
 Definition iw_neg (x : iw) := mk (- value x) (Some (nbits x)).
 Definition iw_pos (x : iw) := mk (value x) (Some (nbits x)).
